@@ -13,6 +13,7 @@ package props
 import (
 	"fmt"
 	"os"
+	"path/filepath"
 	"sort"
 	"strings"
 	"sync"
@@ -591,6 +592,19 @@ runLoop:
 	for oi, op := range ops {
 		switch op.Kind {
 		case "stall":
+			// only once every channel has started (its manifest.mpd exists): uploads that are in flight across the
+			// channel start are received under the numbering of before the start, which no order of completely
+			// processed uploads reproduces (C17's ground, findings F-C17-16/17)
+			allStarted := true
+			for _, c := range w.Channels {
+				if _, err := os.Stat(filepath.Join(ri.Dir, c.Name, "manifest.mpd")); err != nil {
+					allStarted = false
+				}
+			}
+			if !allStarted {
+				res.Count("probe.stall-skipped-channel-not-started")
+				continue
+			}
 			runner.StallBackground(true)
 			stalled = true
 			res.Count("fault.channel-goroutine-stalled")
